@@ -27,7 +27,8 @@ class C10(scen.WorldProp):
                 "Wheatley.C10.holder_look_to",
                 "Wheatley.C10.holder_call_other",
                 "Wheatley.C09.keep_going_never_waits",
-                "Wheatley.C10.run_inv", "Wheatley.C10.never_fails_the_stroke_assertion"]
+                "Wheatley.C10.run_inv", "Wheatley.C10.never_fails_the_stroke_assertion",
+                "Wheatley.C10.run_inv2", "Wheatley.C10.never_indexes_past_the_row", "Wheatley.C10.loaded_ok"]
     level_text = ("theorems: the main loop's two failure points are unreachable - the place always indexes the row "
                   "being rung (invariant over every message and every turn, including tower-size changes mid-row) and "
                   "the stroke assertion of start_next_row cannot fail (counter/parity invariant over every message and "
